@@ -1204,3 +1204,21 @@ Proof.
   destruct (Ceq_dec _ C0) as [Z|NZ]; [exact B0|].
   apply B1; [exact NZ | exact (H11 NZ)].
 Qed.
+
+(* the hypotheses are monotone in eps: an arithmetic with a less accurate libm sqrt (or pow, for the cubic) is covered by taking eps larger *)
+Lemma relc_mono (e e' : R) (t s : C) : e <= e' -> relc e t s -> relc e' t s.
+Proof.
+  unfold relc. intros H K. eapply Rle_trans; [exact K|]. apply Rmult_le_compat_r; [apply Cmod_ge_0|exact H].
+Qed.
+
+Lemma std_model_mono (e e' : R) (O : RoundOps) : e <= e' -> std_model e O -> std_model e' O.
+Proof.
+  intros H (Ha & Hs & Hm & Hd & Hsc & Hsq).
+  repeat split; intros.
+  - apply (relc_mono e e' _ _ H). apply Ha.
+  - apply (relc_mono e e' _ _ H). apply Hs.
+  - apply (relc_mono e e' _ _ H). apply Hm.
+  - apply (relc_mono e e' _ _ H). now apply Hd.
+  - apply (relc_mono e e' _ _ H). apply Hsc.
+  - destruct (Hsq z) as (w & Ew & Hw). exists w. split; [exact Ew|]. now apply (relc_mono e e' _ _ H).
+Qed.
